@@ -205,6 +205,7 @@ class E3:
         if name in ("reserve", "try_reserve", "shrink_to", "shrink_to_fit"):
             self.capacity_checks(b, outs, name, arg_vals)
         self.alloc_checks(ip, b, name, arg_vals)
+        self.insert_site_checks(ip, name)
         if name == "drain":
             pass
 
@@ -526,6 +527,15 @@ class E3:
                 self.check("C13", "%s:exit[%s]:capacity" % (name, sig), s, [ge(cf["cap"][1], N0)],
                            "after shrink_to: capacity >= len", loc)
 
+    def insert_site_checks(self, ip, name):
+        for (k, info) in ip.events:
+            if k != "table_insert":
+                continue
+            chain = "/".join(p.split("::")[-1] for p in info["chain"][-3:])
+            self.rec("C04", "%s:insert-site@%s" % (name, chain), info["justified"] is not None,
+                     "in `%s` (via %s) an entry is inserted into the cache's table only for a key that is known not to be in it%s"
+                     % (name, chain, (": " + info["justified"]) if info["justified"] else ""), info["loc"])
+
     def alloc_checks(self, ip, b, name, arg_vals):
         """what a (re)allocation of the cache's table asks for (C13.2 / C13.4)"""
         evs = [info for (k, info) in ip.events if k == "table_alloc"]
@@ -625,6 +635,7 @@ class E3:
             else:
                 self.rec("C14", "clone:exit:capacity", False, "the clone's table has no tracked capacity request", loc)
             self.rec("C14", "clone:exit:own-table", cf["tid"] != src["tid"], "the clone owns a table of its own", loc)
+        self.insert_site_checks(ip, "clone")
         # the recorded sizes are copied, not re-measured: that they equal entry_size of the cloned pair is Clone's contract
         # (A-clone); what is decided is current_size = sum of *recorded* sizes, above.
 
